@@ -57,12 +57,13 @@ def letters(n):
 
 
 class NFA:
-    __slots__ = ('n', 'eps', 'delta', 'start', 'final')
+    __slots__ = ('n', 'eps', 'delta', 'wild', 'start', 'final')
 
     def __init__(self):
         self.n = 0
         self.eps = {}
         self.delta = {}
+        self.wild = set()         # (p, sym, q) transitions contributed by wildcard leaves
         self.start = self.final = None
 
     def new(self):
@@ -72,8 +73,10 @@ class NFA:
     def add_eps(self, p, q):
         self.eps.setdefault(p, set()).add(q)
 
-    def add(self, p, sym, q):
+    def add(self, p, sym, q, wild=False):
         self.delta.setdefault((p, sym), set()).add(q)
+        if wild:
+            self.wild.add((p, sym, q))
 
 
 def _once(nfa, n, s):
@@ -82,7 +85,7 @@ def _once(nfa, n, s):
     if kind in ('el', 'any'):
         t = nfa.new()
         for sym in n[3]:
-            nfa.add(s, sym, t)
+            nfa.add(s, sym, t, wild=(kind == 'any'))
         return t
     if kind == 'seq':
         cur = s
@@ -125,7 +128,7 @@ def _once(nfa, n, s):
                     # an element leaf has priority over a wildcard leaf for the same symbol
                     if c[0] == 'any' and any(sym in o[3] for o in kids if o[0] == 'el'):
                         continue
-                    nfa.add(q, sym, st(v2))
+                    nfa.add(q, sym, st(v2), wild=(c[0] == 'any'))
         return t
     raise ValueError(kind)
 
@@ -198,7 +201,10 @@ def _closure(nfa, states):
     return frozenset(seen)
 
 
-def dfa_of(n, sigma):
+def dfa_of(n, sigma, prefer_elements=False):
+    """Subset construction.  With prefer_elements a symbol that an element particle can consume in the current
+    state set is never given to a wildcard (the XSD 1.1 'element wins over a competing wildcard' rule read as a
+    validation-time choice); the plain construction is the existential reading."""
     nfa = nfa_of(n)
     start = _closure(nfa, {nfa.start})
     ids = {start: 0}
@@ -211,8 +217,14 @@ def dfa_of(n, sigma):
             accept.add(ids[S])
         for sym in sigma:
             T = set()
+            Tel = set()
             for p in S:
-                T |= nfa.delta.get((p, sym), set())
+                for q in nfa.delta.get((p, sym), ()):
+                    T.add(q)
+                    if (p, sym, q) not in nfa.wild:
+                        Tel.add(q)
+            if prefer_elements and Tel:
+                T = Tel
             if not T:
                 continue
             T = _closure(nfa, T)
